@@ -52,11 +52,20 @@ def point_spectrum(rng, f, d, kind):
     return E, th0
 
 
-def make_spectrum(rng, npts, nf, nd, kinds, depth_mode):
+def make_spectrum(rng, npts, nf, nd, kinds, depth_mode, nonuniform_directions=False):
     import xarray
     from ocean_science_utilities.wavespectra.spectrum import FrequencyDirectionSpectrum
     f = np.linspace(0.04, rng.choice([0.5, 0.8, 1.0]), nf) if rng.random() < 0.6 else 0.04 * 1.12 ** np.arange(nf)
     d = np.linspace(0, 360, nd, endpoint=False)
+    if nonuniform_directions:
+        # bins of width w on one half plane and 2w on the other (still covering the circle)
+        m = 3 * (nd // 3)
+        w = 360.0 / (m // 3 * 2 + m // 3 * 2)
+        fine = np.arange(m // 3 * 2) * w
+        coarse = 180.0 + np.arange(m // 3) * 2 * w
+        d = np.concatenate([fine, coarse])[:m]
+        d = (d + rng.choice([0.0, 7.5])) % 360
+        d = np.sort(d)
     Es, ths = [], []
     for i in range(npts):
         E, th = point_spectrum(rng, f, d, kinds[i % len(kinds)])
